@@ -118,14 +118,48 @@ class ModSolver:
         return ops
 
     def replay(self, exe, ops):
-        import inspect
-        first_param = list(inspect.signature(self.mod.replay).parameters)[0]
-        r = self.mod.replay(exe, ops) if first_param == 'exe' else self.mod.replay(ops, exe=exe)
-        first = r.get('first')
-        if first is None:
-            first = [str(m)[:900] for m in r.get('mismatches', [])]
-        return {'n': r['n'], 'bad': r['bad'], 'skipped': r.get('skipped', 0) + r.get('nonpure', 0),
-                'first': [str(f)[:900] for f in first], 'hout': r.get('hout', [])}
+        """Generic bit-exact comparison (the per-solver modules only supply the input / view hooks)."""
+        mod = self.mod
+        hout, rc, err = C.run_lines(exe, ops, timeout=3000)
+        res = {'n': len(ops), 'bad': 0, 'skipped': 0, 'first': [], 'hout': hout}
+        if rc != 0 or len(hout) != len(ops):
+            res['bad'] = 1
+            res['first'].append(f'real solver crashed / aborted on op #{len(hout)} (rc={rc}): {err[-300:]}')
+            return res
+        drv = C.driver_exe(self.driver)
+        if not os.path.exists(drv):
+            res['bad'] = 1
+            res['first'].append('driver executable missing')
+            return res
+        din = getattr(mod, 'driver_input', lambda o, h: o + ' || ' + S.events_only(h))
+        strip = getattr(mod, 'strip_events', S.strip_events)
+        dout, rc, err = C.run_lines(drv, [din(o, h) for o, h in zip(ops, hout)], timeout=3000)
+        if rc != 0 or len(dout) != len(ops):
+            res['bad'] = 1
+            res['first'].append(f'driver rc={rc} lines={len(dout)}/{len(ops)}: {err[-300:]}')
+            return res
+        for i, (o, h, d) in enumerate(zip(ops, hout, dout)):
+            if d.startswith('ORACLE-NOT-A-FUNCTION'):
+                res['skipped'] += 1
+                continue
+            hs = strip(h)
+            if hs == d.strip():
+                continue
+            evs = [sec.split()[1:] for sec in h.split(' ; ') if sec.strip().startswith('EV ')]
+            if S.Op.parse(o).nat('nanat') and nonpure(evs):
+                res['skipped'] += 1
+                continue
+            if h.startswith('S exception') and not d.strip().startswith('S exception'):
+                # a direction / problem provider threw inside the real solver: outside the models
+                res['skipped'] += 1
+                continue
+            res['bad'] += 1
+            if len(res['first']) < 3:
+                a, b = hs.split(' ; '), d.strip().split(' ; ')
+                k = next((j for j, (x, y) in enumerate(zip(a, b)) if x != y), min(len(a), len(b)))
+                res['first'].append(f'op #{i}: {o[:300]} … section {k}: real={a[k][:300] if k < len(a) else None} '
+                                    f'model={b[k][:300] if k < len(b) else None}')
+        return res
 
     def c03_view(self, op, out):
         if hasattr(self.mod, 'to_c03_view'):
